@@ -391,6 +391,10 @@ MODEL_KINDS = [("kquat", case_kquat), ("kalign", case_kalign), ("kapplied", case
 # property oracle on the implementation
 
 
+SCRAMBLE_SELFTEST = ("Molecule.scramble(do_test=True) raised AssertionError although Molecule.align recovers the scrambled copy "
+                     "exactly (RMSD 0, atom by atom)")
+
+
 def apply_recipe(x, shift, rot, perm, mirror):
     """what Molecule.scramble does: (x . rot + shift), mirror, then take rows perm"""
     y = x @ np.asarray(rot) + np.asarray(shift)
@@ -550,7 +554,7 @@ def oracle(case):
         rot, shift = np.array(case["rot"]), np.array(case["shift"])
         mol = Molecule(symbols=case["symbols"], geometry=R.reshape(-1), validate=True)
         with MirrorRedirect():
-            cmol, data = mol.scramble(do_shift=shift, do_rotate=rot, do_resort=False, do_mirror=case["mirror"], do_test=True, verbose=0)
+            cmol, data = mol.scramble(do_shift=shift, do_rotate=rot, do_resort=False, do_mirror=case["mirror"], do_test=False, verbose=0)
             amol, adata = cmol.align(mol, atoms_map=True, mols_align=True, run_mirror=case["mirror"], verbose=0)
         sol = adata["mill"]
         if not adata["rmsd"] <= 1e-8:
@@ -564,6 +568,16 @@ def oracle(case):
         if not is_collinear(R):
             if np.max(np.abs(np.asarray(sol.rotation).T - rot)) > 1e-6 or np.max(np.abs(np.asarray(sol.shift) - shift)) > 1e-6:
                 return "Molecule.align: returned rotation/shift are not the applied ones", {"rotation": np.asarray(sol.rotation).tolist(), "shift": np.asarray(sol.shift).tolist()}
+        # the built-in self test of scramble must agree (everything it could check was just found to hold)
+        import logging
+        logging.disable(logging.ERROR)
+        try:
+            with MirrorRedirect():
+                mol.scramble(do_shift=shift, do_rotate=rot, do_resort=False, do_mirror=case["mirror"], do_test=True, verbose=0)
+        except AssertionError:
+            return SCRAMBLE_SELFTEST, {"collinear": bool(is_collinear(R)), "align_rmsd": float(adata["rmsd"])}
+        finally:
+            logging.disable(logging.NOTSET)
         return None
     raise AssertionError(kind)
 
@@ -576,6 +590,9 @@ def run_oracle(case):
 
 
 CORPUS_ORACLE = [
+    # known finding C12-scramble-selftest-linear: H2 along z, quarter turn about z
+    {"kind": "molecule", "R": [[0.0, 0.0, 1.0], [0.0, 0.0, 2.5]], "symbols": ["H", "H"],
+     "rot": [[0.0, -1.0, 0.0], [1.0, 0.0, 0.0], [0.0, 0.0, 1.0]], "shift": [1.0, 2.0, 3.0], "mirror": False},
     {"kind": "rigid_fixed", "R": [[0.0, 0.0, 0.0], [1.0, 0.0, 0.0], [0.0, 2.0, 0.0], [0.0, 0.0, 3.0]],
      "rot": [[0.0, -1.0, 0.0], [1.0, 0.0, 0.0], [0.0, 0.0, 1.0]], "shift": [1.0, -2.0, 0.5], "perm": [0, 1, 2, 3], "labels": ["X"] * 4},
     {"kind": "rigid_fixed", "R": [[0.0, 0.0, 0.0], [0.0, 0.0, 1.5]], "rot": [[1.0, 0.0, 0.0], [0.0, 0.0, -1.0], [0.0, 1.0, 0.0]],
@@ -598,8 +615,8 @@ def correspond(ctx):
                  "(generic, planar, collinear, symmetric; 1-30 points; rational rotations, shifts, permutations); oracle cases: rigid "
                  "copies (fixed map 2-30 atoms, permutative <= 7 atoms), unrelated pairs, chiral molecules and mirror images; a case "
                  "is non-trivial unless the allclose short-cut of kabsch_align fired; distinct = distinct inputs")
-    n_model = 12000 if ctx.thorough else 800
-    n_oracle = 30000 if ctx.thorough else 1200
+    n_model = 9000 if ctx.thorough else 800
+    n_oracle = 24000 if ctx.thorough else 1200
     cases, terms = [], []
     for k in range(n_model):
         name, fn = MODEL_KINDS[k % len(MODEL_KINDS)]
@@ -694,7 +711,14 @@ def replay(ctx, rp):
     return {"case": case, "note": "model-building failure: re-run ./check C12", "fails": True}
 
 
-KNOWN = {}
+def _known_scramble_linear(f):
+    # narrow: only the self-test of scramble, only on collinear molecules (where rotation and shift are not unique)
+    case = f.get("case") or {}
+    return (f.get("what") == SCRAMBLE_SELFTEST and case.get("kind") == "molecule"
+            and bool(is_collinear(np.array(case["R"], dtype=float))))
+
+
+KNOWN = {"C12-scramble-selftest-linear": _known_scramble_linear}
 
 TECHNIQUE = ("Coq proofs (ring identities against translated source polynomials, induction over point lists, a Rayleigh-quotient "
              "argument from an eigh specification) over a Gallina model + translator + differential correspondence")
